@@ -29,6 +29,7 @@ func main() {
 	commands["render"] = cmdRender
 	commands["gen"] = cmdGen
 	commands["lex"] = cmdLex
+	commands["batch"] = cmdBatch
 	commands["emit"] = cmdEmit
 	commands["cli"] = cmdCli
 	commands["purity"] = cmdPurity
